@@ -198,14 +198,14 @@ impl Constraints {
                 from + rng.gen_range(0.0..(to - from))
             } else {
                 // Wrap-around case: generate an angle based on two segments
-                let range_length = (2.0 * PI - (from - to)).abs();
+                let range_length = if from == to { 2.0 * PI } else { (to - from).rem_euclid(2.0 * PI) };
                 let segment = rng.gen_range(0.0..range_length);
 
                 // Determine which segment to take (before or after the wrap)
                 if segment < (2.0 * PI - from) {
                     from + segment // Within the forward wrap
                 } else {
-                    to + (segment - (2.0 * PI - from)) // After the wrap
+                    segment - (2.0 * PI - from) // After the wrap, continue from 0
                 }
             };
             random_angle
